@@ -590,6 +590,26 @@ where
     use mahf::components::{initialization, mutation, recombination};
     let name = name.strip_suffix("|log4").unwrap_or(name);
     let cond = || LessThanN::iterations(n);
+    if name == "real_de|ctb" {
+        // C08: DE/current-to-best/2 (no shipped template uses this selection): three partners per base, used by position
+        use mahf::components::{boundary, mutation as mu, recombination as rc, selection};
+        let ps = u(p, "population_size");
+        return Ok(Configuration::builder()
+            .do_(initialization::RandomSpread::new(ps))
+            .evaluate()
+            .update_best_individual()
+            .do_(de::de::<P, mahf::identifier::Global>(
+                de::Parameters {
+                    selection: selection::de::DECurrentToBest::new(2)?,
+                    mutation: mu::de::DEMutation::new(2, 0.7)?,
+                    crossover: rc::de::DEBinomialCrossover::new(0.5),
+                    constraints: boundary::Saturation::new(),
+                    replacement: mahf::components::replacement::KeepBetterAtIndex::new(),
+                },
+                cond(),
+            ))
+            .build());
+    }
     if name == "real_ga|div" || name == "real_ga|warm" {
         // C08: a GA loop that (div) measures and logs all four diversity measures after every evaluation, or
         // (warm) starts from individuals carrying placeholder objective values that the first evaluation has to replace
